@@ -198,6 +198,7 @@ def decode_and_check(lp, k, default_sel, mon, ctx, info, compare_beam=True):
         return None
     mon.count('decodes')
     hyps = [(h.transcript, float(h.vis_sc)) for h in boh]
+    mon.observe('hypotheses', [(t, round(v, 9)) for t, v in hyps])
     pruned_any = check_frames(list(ctx.rec), k, mon, info)
     if len(set(t for t, _ in hyps)) != len(hyps):
         mon.violation('distinct-transcripts', dict(info, hyps=hyps))
